@@ -141,6 +141,8 @@ def run(ctx):
     ctx.rule("R09.i", "rx cache model: rx._resolve, the rx._obj property, _invalidate_current and _invalidate_obj interpreted abstractly on a three-node expression (root, op1, op2) under every "
                       "history of up to 3 (thorough: 4) steps of read leaf / read middle node / set the input to A, B or a bad value / set an operation argument to P, Q or a bad value, followed by a read: the read gives op2(op1(current input, current argument)), "
                       "raises for the bad input, and recovers", floor=1)
+    ctx.rule("R09.o", "rx evaluation-order model: rx._resolve evaluates the pipeline before the arguments of the operation -- with both invalid, reading the node raises the exception the plain "
+                      "left-to-right expression raises (the pipeline's)", floor=1)
     ctx.rule("R09.r", "flush model (shared with R04.h): every watcher queued in a batch -- the cache invalidators of an expression are such watchers -- runs at the flush with the last event of its "
                       "parameter, also when the parameter was set away and back inside the batch (an expression read in between cached the intermediate value; only the flush invalidates it again)", floor=1)
     ctx.not_decided += ["that .rx.value equals the plain-Python result after arbitrary read/update histories (cache coherence) -- not statically decidable here and NOT claimed",
@@ -369,6 +371,7 @@ def run(ctx):
     from checks import rx_model
     rx_model.report(ctx, "R09.i")
     rx_model.value_setter_model(ctx, "R09.v")
+    rx_model.evaluation_order_model(ctx, "R09.o")
     from checks.shared import full_groupby_model
     full_groupby_model(ctx, "R09.q")
     from checks.shared import rx_attribute_resolution_is_per_object
